@@ -3,7 +3,7 @@
    deadline are runtime behaviour: measured by the harness, no theorem).
    Only property statements here; each is closed by [exact] or two lines. *)
 From Lal Require Import Common.LBytes Flv.FlvTag Flv.FlvWs Flv.FlvProofs
-  Queue.QueueSubseq Queue.QueueWrite Queue.QueueWriteProofs.
+  Queue.QueueSubseq Queue.QueueWrite Queue.QueueWriteProofs Queue.QueueRtspSweepProofs.
 Open Scope N_scope.
 
 (* --- nobody waits -------------------------------------------------------- *)
@@ -88,19 +88,22 @@ Proof.
 Qed.
 Print Assumptions c15_framing_ts.
 
-(* RTSP interleaved: '$'-framed packets, each a published RTP packet on the
-   channel of its payload type. *)
-Theorem c15_framing_rtp : forall specs evs j cap s,
-  nth_error specs j = Some (KRtp, cap) ->
+(* RTSP interleaved, for EVERY set-up state [su] of the player (each track with
+   or without an interleaved channel, with or without UDP sockets): '$'-framed
+   packets, each a published RTP packet of a track that HAS an interleaved
+   channel, on the channel of that track. *)
+Theorem c15_framing_rtp : forall specs evs j su cap s,
+  nth_error specs j = Some (KRtp su, cap) ->
   nth_error (fst (run evs (init_state specs))) j = Some s ->
   (forall b, In b (pub_payloads evs) -> lenN b < 65536) ->
   exists pkts tail,
     c_wire (s_conn s) = concat (map (fun x => pack_interleaved (fst x) (snd x)) pkts) ++ tail /\
-    Forall (fun x => (fst x = 0 \/ fst x = 2) /\ In (snd x) (pub_payloads evs)) pkts /\
+    Forall (fun x => (fst x = 0 /\ su_vtcp su = true \/ fst x = 2 /\ su_atcp su = true) /\
+                     In (snd x) (pub_payloads evs)) pkts /\
     parses rtp_parse1 (concat (map (fun x => pack_interleaved (fst x) (snd x)) pkts)) pkts /\
-    tail_ok KRtp evs s tail.
+    tail_ok (KRtp su) evs s tail.
 Proof.
-  intros specs evs j cap s Hk Hs Hp. rewrite (run_session specs evs j KRtp cap Hk) in Hs.
+  intros specs evs j su cap s Hk Hs Hp. rewrite (run_session specs evs j (KRtp su) cap Hk) in Hs.
   inversion Hs; subst. apply rtp_stream. exact Hp.
 Qed.
 Print Assumptions c15_framing_rtp.
@@ -128,7 +131,7 @@ Print Assumptions c15_framing_rtmp.
    received stream is a sequence of complete FIN/binary/unmasked RFC 6455
    frames, each carrying one published unit. *)
 Theorem c15_framing_ws : forall specs evs j k cap s,
-  k = KWsFlv \/ k = KWsTs \/ k = KWsRtp ->
+  k = KWsFlv \/ k = KWsTs \/ (exists su, k = KWsRtp su) ->
   nth_error specs j = Some (k, cap) ->
   nth_error (fst (run evs (init_state specs))) j = Some s ->
   (forall b, In b (pub_payloads evs) -> lenN b < (if is_rtp k then 65536 else 9223372036854775808)) ->
@@ -140,7 +143,7 @@ Theorem c15_framing_ws : forall specs evs j k cap s,
 Proof.
   intros specs evs j k cap s Hkk Hk Hs Hp. rewrite (run_session specs evs j k cap Hk) in Hs.
   inversion Hs; subst. apply ws_stream.
-  destruct Hkk as [-> | [-> | ->]]; cbn [is_rtp] in Hp;
+  destruct Hkk as [-> | [-> | [su ->]]]; cbn [is_rtp] in Hp;
     [apply ws_units_flv_ts; auto|apply ws_units_flv_ts; auto|apply ws_units_rtp; assumption].
 Qed.
 Print Assumptions c15_framing_ws.
@@ -195,6 +198,73 @@ Theorem c15_sweep_progress : forall evs s u k,
   s_conn (sweep_one s1) = s_conn s1.
 Proof. exact sweep_progress. Qed.
 Print Assumptions c15_sweep_progress.
+
+(* --- liveness sweep, rtsp subscribers ------------------------------------- *)
+(* The sweep looks at the session's own counter (BaseOutSession.sessionStat),
+   increased by WriteRtpPacket.  Stated for EVERY set-up state of the player. *)
+
+(* A subscriber, plain or WebSocket, whose tracks - both, one of the two, or
+   none - are interleaved on the command connection (no UDP socket) and that
+   does not read: once its queue is full at a sweep ([jammed]: the writer is
+   parked in conn.Write holding a message and the queue is at capacity, or the
+   connection is closed), the next sweep closes it, whatever is published in
+   between (packets of the tracks it set up AND of the track it did not) and
+   whatever the other consumers do. *)
+Theorem c15_sweep_rtsp_stalled : forall evs s,
+  is_rtp (s_kind s) = true -> su_no_udp (kind_setup (s_kind s)) = true ->
+  jammed (s_conn s) -> Forall (quiet (s_id s)) evs ->
+  c_closed (s_conn (sweep_one (srun evs (sweep_one s)))) = true.
+Proof. exact sweep_stalled_rtp. Qed.
+Print Assumptions c15_sweep_rtsp_stalled.
+
+(* Every set-up state (UDP sockets included), every state of the queue, and
+   whatever the consumer itself does (reads, write failures): packets that are
+   handed to none of its connections - a track without transport, a payload
+   type outside the SDP - do not keep it alive. *)
+Theorem c15_sweep_rtsp_unrouted : forall evs s,
+  is_rtp (s_kind s) = true -> Forall (idle_ev (kind_setup (s_kind s))) evs ->
+  c_closed (s_conn (sweep_one (srun evs (sweep_one s)))) = true.
+Proof. exact sweep_idle_rtp. Qed.
+Print Assumptions c15_sweep_rtsp_unrouted.
+
+(* ... and a packet that IS handed over (interleaved: open connection and room
+   in the queue; UDP socket: open) after a sweep keeps it at the next one *)
+Theorem c15_sweep_rtsp_progress : forall evs s eager bufs t,
+  is_rtp (s_kind s) = true -> s_stale s = Some (s_acc s) ->
+  rtp_track (concat bufs) = Some t -> concat bufs <> [] ->
+  rtp_handed (kind_setup (s_kind s)) t = true -> c_closed (s_conn s) = false ->
+  (su_tcp (kind_setup (s_kind s)) t = true -> (length (c_chan (s_conn s)) < c_cap (s_conn s))%nat) ->
+  Forall not_sweep evs ->
+  let s1 := srun evs (fst (sess_write eager bufs s)) in
+  s_conn (sweep_one s1) = s_conn s1.
+Proof. exact sweep_progress_rtp. Qed.
+Print Assumptions c15_sweep_rtsp_progress.
+
+(* The property was FALSE of the code as it stood (F-34): WriteRtpPacket counted
+   a packet as written when its track was never SETUP (no write made, err
+   nil).  Player with the video track interleaved only, queue capacity 1, two
+   video packets then it stops reading, one sweep [f34_start]; then per sweep
+   interval a video packet (rejected: queue full) and an audio packet (goes
+   nowhere).  It satisfies the hypotheses of c15_sweep_rtsp_stalled, yet with
+   the accounting of the pinned tree it is still connected after ANY number of
+   sweeps; with the repaired accounting the next sweep closes it. *)
+Theorem c15_sweep_rtsp_pinned_refuted :
+  is_rtp (s_kind f34_start) = true /\ su_no_udp (kind_setup (s_kind f34_start)) = true /\
+  jammed (s_conn f34_start) /\
+  (forall n, c_closed (s_conn (f34_rounds sess_write_pinned n f34_start)) = false) /\
+  c_closed (s_conn (f34_rounds sess_write 1 f34_start)) = true.
+Proof. exact sweep_rtp_pinned_refuted. Qed.
+Print Assumptions c15_sweep_rtsp_pinned_refuted.
+
+(* --- no retry --------------------------------------------------------------- *)
+(* A session-level write of any kind, in any state of its queue (room, full,
+   closed), calls connection.Write/Writev at most once - exactly once per unit:
+   a rejected write is dropped, never retried or waited for. *)
+Theorem c15_one_attempt : forall eager bufs s,
+  s_att (fst (sess_write eager bufs s)) <= s_att s + 1 /\
+  (forall us, sess_units (s_kind s) bufs = Some us -> s_att (fst (sess_write eager bufs s)) = s_att s + lenN us).
+Proof. exact one_attempt. Qed.
+Print Assumptions c15_one_attempt.
 
 (* --- non-vacuity ----------------------------------------------------------- *)
 (* two HTTP-FLV consumers with queue capacity 1; consumer 0 stalls, consumer 1
